@@ -11,7 +11,11 @@
  * Reply line: "I <pixel>,<pixel>,...[ P <pixels> R <pixels>]" in row order (P: the same pixels fetched one by one with
  * 1x1 composites, R: fetched by a horizontally mirrored walk, printed un-mirrored; narrow, unmasked, no/affine transform;
  * O same | O diff:<count>:<index>:<over>:<src-then-over>:<src pixel>: OP_OVER of the gradient onto an opaque pattern
- * against OP_OVER of the SRC result; narrow, unmasked); narrow: 8 hex digits, wide: 4 x 8 hex digits (IEEE bits
+ * against OP_OVER of the SRC result; narrow, unmasked;
+ * C same | C diff:<op>:<mask kind>:<count>:<index>:<gradient as source>:<rendered picture as source>:<mask pixel>:<picture pixel>:
+ * OP_SRC/OVER/ADD x masks {none, a8, a8r8g8b8 unified, a8r8g8b8 component alpha} onto a translucent pattern, the gradient as
+ * source against its unmasked OP_SRC rendering (a8r8g8b8 resp. rgba_float temporary) as source, bit for bit (narrow) resp. within 2^-16 per channel (wide: the float combiners clamp); the mask values
+ * are a function of the request (hash), edge biased); narrow: 8 hex digits, wide: 4 x 8 hex digits (IEEE bits
  * of a r g b).   Modes of `gen`: 0 colour stream (non-decreasing stops in [0,1], conditioned geometry),
  * 1 safety stream (arbitrary stops, degenerate geometry; reply "ok"), 2 colour stream with short rows and
  * many stops on exact stop positions.
@@ -134,6 +138,116 @@ static int parse_req (char *line, req_t *q)
 }
 
 /* ------------------------------------------------------------------ running one request */
+/* ---- "gradient source == its rendered picture as source": masks with edge-biased values -------------------- */
+static uint64_t lrng (uint64_t *st) { uint64_t z = (*st += 0x9E3779B97F4A7C15ULL); z = (z ^ (z >> 30)) * 0xBF58476D1CE4E5B9ULL; z = (z ^ (z >> 27)) * 0x94D049BB133111EBULL; return z ^ (z >> 31); }
+static uint32_t edge_byte (uint64_t *st) { uint32_t k = (uint32_t) (lrng (st) % 6); return k <= 1 ? 0xff : k == 2 ? 0 : k == 3 ? 0x80 : (uint32_t) (lrng (st) & 0xff); }
+
+/* a hash of the request itself (the fields print_req prints): the mask contents are a function of the request */
+static uint64_t req_hash (const req_t *q)
+{
+    uint64_t h = 1469598103934665603ULL;
+#define MIX(v) do { h ^= (uint64_t) (int64_t) (v); h *= 1099511628211ULL; } while (0)
+    MIX (q->kind); MIX (q->wide); MIX (q->rep); MIX (q->W); MIX (q->H); MIX (q->sx); MIX (q->sy); MIX (q->mask); MIX (q->hasT);
+    if (q->hasT) for (int i = 0; i < 9; i++) MIX (q->m[i]);
+    for (int i = 0; i < geon[q->kind]; i++) MIX (q->geo[i]);
+    for (int i = 0; i < q->n; i++) { MIX (q->stops[i].x); MIX (q->stops[i].color.red); MIX (q->stops[i].color.green); MIX (q->stops[i].color.blue); MIX (q->stops[i].color.alpha); }
+    return h;
+}
+
+/* mask kinds: 0 none, 1 a8 unified, 2 a8r8g8b8 unified, 3 a8r8g8b8 component alpha.  Values: per byte 00/ff/80/random,
+ * runs of fully zero pixels (the iterators' skip hint) next to non-zero ones, and pixels whose alpha byte is 0 while a
+ * colour byte is not (a component-alpha mask still lets those channels through) */
+static pixman_image_t *make_mask (int kind, int W, int H, uint64_t *st, uint32_t **store)
+{
+    *store = NULL;
+    if (kind == 0) return NULL;
+    if (kind == 1) {
+        int stride = (W + 3) & ~3;
+        uint8_t *m = calloc ((size_t) stride * H, 1);
+        int zero_run = 0;
+        for (int y = 0; y < H; y++) for (int x = 0; x < W; x++) {
+            if (zero_run > 0) { zero_run--; continue; }
+            if (lrng (st) % 5 == 0) { zero_run = (int) (lrng (st) % 4); continue; }
+            m[y * stride + x] = (uint8_t) edge_byte (st);
+        }
+        *store = (uint32_t *) m;
+        return pixman_image_create_bits (PIXMAN_a8, W, H, (uint32_t *) m, stride);
+    }
+    uint32_t *m = calloc ((size_t) W * H, 4);
+    int zero_run = 0;
+    for (int i = 0; i < W * H; i++) {
+        if (zero_run > 0) { zero_run--; continue; }
+        uint32_t k = (uint32_t) (lrng (st) % 10);
+        if (k <= 1) { zero_run = (int) (lrng (st) % 4); continue; }
+        uint32_t a = edge_byte (st), r = edge_byte (st), g = edge_byte (st), b = edge_byte (st);
+        if (k <= 4) { a = 0; if (!(r | g | b)) r = 0xff; }               /* alpha byte 0, some colour byte not */
+        m[i] = a << 24 | r << 16 | g << 8 | b;
+    }
+    *store = m;
+    pixman_image_t *img = pixman_image_create_bits (PIXMAN_a8r8g8b8, W, H, m, W * 4);
+    if (kind == 3) pixman_image_set_component_alpha (img, 1);
+    return img;
+}
+
+/* returns 1 and prints " C same" / " C diff:..." */
+static void combine_check (const req_t *q, pixman_image_t *src, FILE *out)
+{
+    static const pixman_op_t ops[3] = { PIXMAN_OP_SRC, PIXMAN_OP_OVER, PIXMAN_OP_ADD };
+    static const char *opname[3] = { "SRC", "OVER", "ADD" };
+    static const char *mname[4] = { "none", "a8", "a8r8g8b8", "a8r8g8b8-ca" };
+    int W = q->W, H = q->H, words = q->wide ? 4 : 1;
+    pixman_format_code_t fmt = q->wide ? PIXMAN_rgba_float : PIXMAN_a8r8g8b8;
+    size_t n = (size_t) W * H * words;
+    uint64_t st = req_hash (q);
+    /* the gradient rendered without a mask into a temporary of the pipeline's own precision */
+    uint32_t *tb = calloc (n, 4), *d1 = malloc (n * 4), *d2 = malloc (n * 4), *d0 = malloc (n * 4);
+    pixman_image_t *tmp = pixman_image_create_bits (fmt, W, H, tb, W * words * 4);
+    arm (watchdog_s);
+    pixman_image_composite32 (PIXMAN_OP_SRC, src, NULL, tmp, q->sx, q->sy, 0, 0, 0, 0, W, H);
+    /* destination: premultiplied, translucent pattern */
+    for (int i = 0; i < W * H; i++) {
+        uint32_t a = edge_byte (&st), r = (uint32_t) (lrng (&st) & 0xff) * a / 255, g = (uint32_t) (lrng (&st) & 0xff) * a / 255, b = (uint32_t) (lrng (&st) & 0xff) * a / 255;
+        if (q->wide) { float *f = (float *) d0 + 4 * (size_t) i; f[0] = r / 255.f; f[1] = g / 255.f; f[2] = b / 255.f; f[3] = a / 255.f; }
+        else d0[i] = a << 24 | r << 16 | g << 8 | b;
+    }
+    int done = 0;
+    for (int mk = 0; mk < 4 && !done; mk++) {
+        uint32_t *store;
+        pixman_image_t *mask = make_mask (mk, W, H, &st, &store);
+        for (int o = 0; o < 3 && !done; o++) {
+            memcpy (d1, d0, n * 4); memcpy (d2, d0, n * 4);
+            pixman_image_t *e1 = pixman_image_create_bits (fmt, W, H, d1, W * words * 4);
+            pixman_image_t *e2 = pixman_image_create_bits (fmt, W, H, d2, W * words * 4);
+            pixman_image_composite32 (ops[o], src, mask, e1, q->sx, q->sy, 0, 0, 0, 0, W, H);
+            pixman_image_composite32 (ops[o], tmp, mask, e2, 0, 0, 0, 0, 0, 0, W, H);
+            pixman_image_unref (e1); pixman_image_unref (e2);
+            int bad = -1, nbad = 0;
+            for (int i = 0; i < W * H; i++) {
+                int differs = 0;
+                if (!q->wide) differs = d1[i] != d2[i];
+                else {
+                    /* the float combiners clamp to [0,1], so the temporary holds 1.0 where the walker produced 1.0000002:
+                     * the wide comparison allows 2^-16 per channel (the narrow one is bit for bit) */
+                    const float *f1 = (const float *) d1 + 4 * (size_t) i, *f2 = (const float *) d2 + 4 * (size_t) i;
+                    for (int c = 0; c < 4; c++) if (!(fabsf (f1[c] - f2[c]) <= 1.0f / 65536.0f)) differs = 1;
+                }
+                if (differs) { if (bad < 0) bad = i; nbad++; }
+            }
+            if (bad >= 0) {
+                uint32_t mp = mk == 0 ? 0xffffffffu : mk == 1 ? ((uint8_t *) store)[(bad / W) * ((W + 3) & ~3) + bad % W] : store[bad];
+                fprintf (out, " C diff:%s:%s:%d:%d:%08x:%08x:%08x:%08x", opname[o], mname[mk], nbad, bad,
+                         d1[(size_t) bad * words + (q->wide ? 3 : 0)], d2[(size_t) bad * words + (q->wide ? 3 : 0)], mp, tb[(size_t) bad * words + (q->wide ? 3 : 0)]);
+                done = 1;
+            }
+        }
+        if (mask) pixman_image_unref (mask);
+        free (store);
+    }
+    arm (0);
+    if (!done) fputs (" C same", out);
+    pixman_image_unref (tmp); free (tb); free (d1); free (d2); free (d0);
+}
+
 static int mask_bit (uint64_t m, int x, int y) { return (int) ((m >> ((5 * x + 11 * y) & 63)) & 1); }
 
 static void run_req (const req_t *q, FILE *out, int print_pixels)
@@ -179,6 +293,8 @@ static void run_req (const req_t *q, FILE *out, int print_pixels)
                 fprintf (out, "%08x%08x%08x%08x", p[3], p[0], p[1], p[2]);
             } else fprintf (out, "%08x", bits[i]);
         }
+        /* every operator x mask kind: the gradient as source against its own rendered picture as source, bit for bit */
+        combine_check (q, src, out);
         /* OVER onto a non-empty destination against "SRC into a temporary (the pixels above), then OVER": pixels
          * without an admissible parameter are transparent and must keep the destination (guards the opacity flag of
          * the gradient image: a source wrongly taken for opaque turns OVER into SRC) */
